@@ -30,6 +30,8 @@ func checkC14(c *Ctx) (string, error) {
 	checkFuncNameFlows(c, sp, cp)
 	checkTypeArgQualifier(c, w.Main("ssa/abi"))
 	checkMergeableLinkage(c, sp)
+	checkOwnershipSeparator(c, sp)
+	checkLinknameAfterLoad(c, cp)
 	rcfgs := []LoadCfg{defaultCfg}
 	if c.Tier == "thorough" {
 		rcfgs = append(rcfgs, LoadCfg{GOOS: "darwin", GOARCH: "arm64"}, LoadCfg{GOOS: "linux", GOARCH: "arm64"}, LoadCfg{GOOS: "linux", GOARCH: "amd64", Tags: []string{"nogc"}})
@@ -71,6 +73,20 @@ func checkFuncNameFlows(c *Ctx, sp, cp *packages.Package) {
 	c.Check(strings.Contains(rets, `PathOf(pkg)+"."+tName+"."+name`), "R14.1", "ssa.FuncName method = path.Recv.name", fd.Pos(), "PathOf(pkg) + \".\" + receiver + \".\" + name", "a method's link name is not package path + receiver + method name: "+rets)
 	c.Check(strings.Contains(src, "named,ptr:=recvNamed(recv.Type())") && strings.Contains(src, `tName="(*"+tName+")"`) && strings.Contains(src, "ifptr"), "R14.1", "ssa.FuncName pointer receivers distinguished", fd.Pos(), "(*T) for pointer receivers", "value- and pointer-receiver methods of one type get the same link name")
 	c.Check(strings.Contains(src, "tName=abi.NamedName(named)"), "R14.1", "ssa.FuncName receiver includes type arguments", fd.Pos(), "abi.NamedName(named)", "methods of different instantiations of a generic type share a link name")
+	// wrappers ($bound, $thunk) are emitted in the package that uses them: the receiver's own package must be part of the name
+	recvPkgFlows := nodeHas(fd.Body, func(n ast.Node) bool {
+		call, ok := n.(*ast.CallExpr)
+		if !ok {
+			return false
+		}
+		f := calleeOf(sp.TypesInfo, call)
+		if f == nil || f.Name() != "Pkg" {
+			return false
+		}
+		return strings.Contains(strings.ReplaceAll(exprStr(call), " ", ""), "named.Obj().Pkg()")
+	})
+	c.Check(recvPkgFlows, "R14.1", "ssa.FuncName receiver of another package is qualified by its package", fd.Pos(), "named.Obj().Pkg() enters the name when it differs from pkg",
+		"the receiver type contributes only its bare name: the bound-method and thunk wrappers that package A emits for lib.T.M and for its own A.T.M get one symbol (A.T.M$bound), and the second definition is dropped")
 	c.Check(strings.Contains(rets, "ret;") && strings.Contains(src, "ret:=FullName(pkg,name)"), "R14.1", "ssa.FuncName function = path.name", fd.Pos(), "FullName(pkg, name)", "a plain function's link name is not package path + name")
 	// recvNamed: pointer peel, then unalias the element, then the Named assertion
 	if rn := findFunc(sp, "recvNamed"); rn != nil {
